@@ -28,6 +28,25 @@ fn comp_list(rng: &mut Rng, prefix: &str, n: usize, allow_opt: bool) -> Vec<Stri
 }
 
 fn gen_pair(rng: &mut Rng) -> Pair {
+    if rng.chance(1, 13) {
+        // ---- COMPONENTS OF a type of another module whose tagging default differs: the tags keep the meaning they have
+        // where they are written (X.680 31.2.7 applies to the module that contains the TaggedType notation).
+        // `helpers` holds the whole exporting module here (marker `@@MODULE`).
+        let a = *rng.pick(&["IMPLICIT", "EXPLICIT"]);
+        let b = *rng.pick(&["IMPLICIT", "EXPLICIT"]);
+        let n = 1 + rng.below(3);
+        let leaves = ["INTEGER", "BOOLEAN", "OCTET STRING"];
+        let hcomps: Vec<(String, String)> = (0..n).map(|i| (format!("hq{i} [{}]", i * 2), format!("{}{}", leaves[i % 3], if i == 1 { " OPTIONAL" } else { "" }))).collect();
+        let helpers = format!("@@MODULE Mq2 DEFINITIONS {a} TAGS ::= BEGIN\n@HTs ::= SEQUENCE {{ {} }}\nEND\n", hcomps.iter().map(|(h, t)| format!("{h} {t}")).collect::<Vec<_>>().join(", "));
+        let own = "fq1 [20] NULL";
+        return Pair {
+            family: "components-of-across-modules",
+            class: format!("defining={a},including={b}"),
+            helpers,
+            sugared: format!("@@HEADER {b} IMPORTS @HTs FROM Mq2;\nTq1 ::= SEQUENCE {{ {own}, COMPONENTS OF @HTs }}\n"),
+            expanded: format!("@@HEADER {b} IMPORTS @HTs FROM Mq2;\nTq1 ::= SEQUENCE {{ {own}, {} }}\n", hcomps.iter().map(|(h, t)| format!("{h} {a} {t}")).collect::<Vec<_>>().join(", ")),
+        };
+    }
     match rng.below(12) {
         // ---- value references / named numbers inside constraints
         0 | 1 => {
@@ -114,7 +133,10 @@ fn gen_pair(rng: &mut Rng) -> Pair {
                 }
             };
             let (params, body_s, body_e, args) = body(targ);
-            let helpers = format!("@HTp{params} ::= {body_s}\n");
+            // a module-level value spelled like the dummy reference must not be picked instead of the actual parameter
+            // (X.683 8.3: the dummy reference hides it inside the parameterized assignment)
+            let global_homonym = np >= 2 && rng.chance(1, 2);
+            let helpers = format!("@HTp{params} ::= {body_s}\n{}", if global_homonym { "n INTEGER ::= 977\n" } else { "" });
             let inst = 1 + rng.below(3);
             let mut sug = format!("Tq1 ::= @HTp{args}\n");
             let mut exp = format!("Tq1 ::= {body_e}\n");
@@ -124,7 +146,7 @@ fn gen_pair(rng: &mut Rng) -> Pair {
                 sug.push_str(&format!("Tq{k} ::= @HTp{ar}\n"));
                 exp.push_str(&format!("Tq{k} ::= {be}\n"));
             }
-            Pair { family: "parameterized-type", class: format!("params={np},instantiations={inst}"), helpers, sugared: sug, expanded: exp }
+            Pair { family: "parameterized-type", class: format!("params={np},instantiations={inst}{}", if global_homonym { ",global-value-named-like-dummy" } else { "" }), helpers, sugared: sug, expanded: exp }
         }
         // ---- selection type
         9 | 10 => {
@@ -178,6 +200,13 @@ fn check(seed: u64, idx: u64, rep: &mut Report) {
         let cls = if h == "Aq" { "AQ" } else { "ZQ" };
         let low = h.to_lowercase();
         let sub = |t: &str| t.replace("@HCLS", &format!("{cls}CLS")).replace("@H", h).replace("@L", &low);
+        if let Some(m2) = p.helpers.strip_prefix("@@MODULE ") {
+            // two modules: the helper text is the exporting module, the body starts with its own header line
+            let (hdr, rest) = body.split_once('\n').unwrap_or((body, ""));
+            let hdr = hdr.trim_start_matches("@@HEADER ");
+            let (tag, imports) = hdr.split_once(' ').unwrap_or((hdr, ""));
+            return format!("Mq1 DEFINITIONS {tag} TAGS ::= BEGIN {}\n{}END\n{}", sub(imports), sub(rest), sub(m2));
+        }
         format!("Mq1 DEFINITIONS {tagging} ::= BEGIN\n{}{}END\n", sub(&p.helpers), sub(body))
     };
     let mut results = vec![];
@@ -206,8 +235,10 @@ fn check(seed: u64, idx: u64, rep: &mut Report) {
             reported = true;
             let kind = if s.0 != e.0 { format!("status:{}", s.0.split('/').next().unwrap_or("")) } else { "bindings-differ".to_string() };
             let first = s.1.iter().zip(e.1.iter()).find(|(a, b)| a != b).map(|(a, b)| format!("`{}` vs `{}`", one_line(a, 150), one_line(b, 150))).unwrap_or_else(|| format!("{} vs {} items; {}", s.1.len(), e.1.len(), one_line(&s.2, 120)));
+            // where the order of definitions is part of the (known) defect it is part of the signature
+            let order = if p.class.contains("global-value-named-like-dummy") { if *h == "Aq" { ",template-sorts-before-instances" } else { ",template-sorts-after-instances" } } else { "" };
             rep.violations.push(Violation {
-                sig: format!("c09|{}|{kind}|{}", p.family, p.class),
+                sig: format!("c09|{}|{kind}|{}{order}", p.family, p.class),
                 what: format!("sugared ({}) and expanded forms differ (helper names `{h}*`): {first}", one_line(p.sugared.trim(), 120)),
                 replay: json!({"sugared": render(&p.sugared, h), "expanded": render(&p.expanded, h), "seed": seed, "idx": idx}),
             });
@@ -216,7 +247,7 @@ fn check(seed: u64, idx: u64, rep: &mut Report) {
     // independence of helper-name spelling / definition order
     if results[0].1 .0 != results[1].1 .0 || results[0].1 .1 != results[1].1 .1 {
         rep.violations.push(Violation {
-            sig: format!("c09|{}|depends-on-helper-name-order", p.family),
+            sig: format!("c09|{}|depends-on-helper-name-order{}", p.family, if p.class.contains("global-value-named-like-dummy") { "|global-value-named-like-dummy" } else { "" }),
             what: format!("the sugared form compiles differently when the referenced definition sorts before (`Aq*`) vs after (`Zq*`) `Tq1`: {}", one_line(p.sugared.trim(), 120)),
             replay: json!({"a": render(&p.sugared, "Aq"), "z": render(&p.sugared, "Zq"), "seed": seed, "idx": idx}),
         });
